@@ -1044,6 +1044,10 @@ class _Normalizer:
                     if k is not None:
                         n.args[0] = k
                         me.stats['builtin_forms'] = me.stats.get('builtin_forms', 0) + 1
+                if isinstance(n.func, ast.Call) and _is_partial(n.func) and not shadow('functools') and not shadow('partial') \
+                        and not any(isinstance(a, ast.Starred) for a in n.args):
+                    me.stats['builtin_forms'] = me.stats.get('builtin_forms', 0) + 1
+                    return ast.copy_location(ast.Call(func=n.func.args[0], args=list(n.func.args[1:]) + list(n.args), keywords=n.keywords), n)
                 if ast.unparse(n.func) == 'dict.fromkeys' and not shadow('dict') and len(n.args) == 2 and not n.keywords \
                         and _is_simple_or_const(n.args[1]):
                     me.counter += 1
@@ -1347,8 +1351,19 @@ class _Normalizer:
             return [S().visit(copy.deepcopy(x)) for x in stmts]
 
         def rewrite(st: ast.With):
-            if len(st.items) != 1:
-                return None
+            if len(st.items) > 1:
+                # ``with A, B: BODY`` is ``with A: with B: BODY``
+                inner = ast.With(items=st.items[1:], body=st.body)
+                outer = ast.With(items=st.items[:1], body=[inner])
+                for x in (inner, outer):
+                    ast.copy_location(x, st)
+                r_in = rewrite(inner)
+                if r_in is not None:
+                    outer.body = r_in
+                r_out = rewrite(outer)
+                if r_out is None and r_in is None:
+                    return None
+                return r_out if r_out is not None else [outer]
             it = st.items[0]
             if not isinstance(it.context_expr, ast.Call):
                 return None
@@ -1424,10 +1439,18 @@ class _Normalizer:
                 if isinstance(st, ast.With):
                     new = rewrite(st)
                     if new is not None:
+                        # what was spliced in may itself use managers (a generator manager built from others)
+                        if depth[0] < 6:
+                            depth[0] += 1
+                            try:
+                                new = walk_body(new)
+                            finally:
+                                depth[0] -= 1
                         out.extend(new)
                         continue
                 out.append(st)
             return out
+        depth = [0]
         fnode.body = walk_body(fnode.body)
 
     def _splice_generator_cm(self, st: ast.With, cls, local):
@@ -1449,7 +1472,19 @@ class _Normalizer:
                         fi = f0
             except Exception:
                 fi = None
-        if fi is None or fi.module is not self.m:
+        if fi is None:
+            # a manager of another module of the package, named through the module: when every free name of its body means
+            # the same here (or it has none)
+            try:
+                from .srcmodel import FuncRef
+                r = self.repo.resolve_expr(call.func, self.m)
+                if isinstance(r, FuncRef) and r.module in self.repo.modules and r.module != self.m.name:
+                    f0 = self.repo.func(r.module, r.qualname)
+                    if f0.parent is None and self.repo.is_helper(f0) and self._portable_body(f0):
+                        fi = f0
+            except Exception:
+                fi = None
+        if fi is None or (fi.module is not self.m and not self._portable_body(fi)):
             return None
         decos = [ast.unparse(d) for d in fi.node.decorator_list]
         if not any(d.split('.')[-1] == 'contextmanager' for d in decos) or len(decos) != 1:
@@ -2551,6 +2586,34 @@ class _Normalizer:
             return None
         return fi, recv
 
+    def _portable_body(self, fi) -> bool:
+        """does every free name of the function's body mean in this module what it means where the function lives?"""
+        import builtins
+        params = {a.arg for a in fi.node.args.args + fi.node.args.kwonlyargs}
+        if fi.node.args.vararg:
+            params.add(fi.node.args.vararg.arg)
+        if fi.node.args.kwarg:
+            params.add(fi.node.args.kwarg.arg)
+        bound = set(params)
+        for st in _body(fi.node):
+            bound |= _bound_names(st)
+        other = fi.module
+        for st in _body(fi.node):
+            for x in ast.walk(st):
+                if isinstance(x, ast.Name) and x.id not in bound:
+                    known_here = x.id in self.m.assigns or x.id in self.m.imports or x.id in self.m.functions or x.id in self.m.classes
+                    known_there = x.id in other.assigns or x.id in other.imports or x.id in other.functions or x.id in other.classes
+                    if not known_here and not known_there and hasattr(builtins, x.id):
+                        continue
+                    try:
+                        if self.repo.resolve_name(x.id, self.m) != self.repo.resolve_name(x.id, other):
+                            return False
+                    except Exception:
+                        return False
+                elif isinstance(x, (ast.Lambda, ast.FunctionDef, ast.ClassDef, ast.Global, ast.Nonlocal)):
+                    return False
+        return True
+
     def _portable(self, fi) -> bool:
         """does every free name of the helper's single expression mean in this module what it means where the helper lives?"""
         import builtins
@@ -2672,7 +2735,7 @@ class _Normalizer:
         subst: Dict[str, ast.expr] = {}
         rename: Dict[str, str] = {b: tag + b for b in bound}
         for p, x in binding.items():
-            simple = _is_simple(x) or _is_getter(x) or (isinstance(x, ast.Tuple) and all(_is_simple_or_const(y) for y in x.elts))
+            simple = _is_simple(x) or _is_getter(x) or _is_partial(x) or (isinstance(x, ast.Tuple) and all(_is_simple_or_const(y) for y in x.elts))
             if p in bound or not (simple or uses.get(p, 0) <= 1 and len(body) == 1):
                 tmp = tag + p
                 asg = ast.Assign(targets=[ast.Name(id=tmp, ctx=ast.Store())], value=copy.deepcopy(x))
@@ -2972,6 +3035,12 @@ def _is_simple(e: ast.expr) -> bool:
     while isinstance(e, ast.Attribute):
         e = e.value
     return isinstance(e, (ast.Name, ast.Constant))
+
+
+def _is_partial(e) -> bool:
+    """``functools.partial(f, a, ..)`` over a plain callable and plain arguments"""
+    return isinstance(e, ast.Call) and ast.unparse(e.func) in ('functools.partial', 'partial') and e.args and not e.keywords \
+        and all(_is_simple_or_const(a) for a in e.args)
 
 
 def _is_getter(e) -> bool:
